@@ -2,6 +2,9 @@
   C04 — Element-wise operations follow right-aligned broadcasting, or refuse.
 -/
 import CorgiProofs.Broadcast
+import CorgiProofs.Ewise
+
+set_option linter.unusedSectionVars false
 
 namespace Corgi
 variable {S : Type} [Add S] [Mul S] [Neg S] [Sub S] [ScalarOps S]
@@ -25,7 +28,37 @@ theorem C04_refuse_ops (a b : Tensor S) (s : S) (h : Compat a.dims b.dims = fals
   · exact C04_refuse _ a (neg b) (by simpa [neg, scale, mapT] using h)
   · exact C04_refuse _ (scale a s) b (by simpa [scale, mapT] using h)
 
+/-- **The element formula, all ranks and sizes.**  For well-formed operands (rank ≥ 1) whose
+    dimensions, aligned from the last one, are pairwise equal or 1, every element-wise operation
+    returns the array with the pairwise-maximum dimensions whose element at each multi-index is the
+    scalar operation applied to the operands' elements at that index (index 0 along broadcast
+    dimensions, surplus leading indices dropped). -/
+theorem C04_ewise (f : S → S → S) (a b : Tensor S) (hwa : a.WF) (hwb : b.WF)
+    (hna : a.dims ≠ []) (hnb : b.dims ≠ []) (hc : Compat a.dims b.dims = true) :
+    ewise f a b = .ok (specEwise f a b) := ewise_spec f a b hwa hwb hna hnb hc
+
+theorem C04_add (a b : Tensor S) (hwa : a.WF) (hwb : b.WF) (hna : a.dims ≠ []) (hnb : b.dims ≠ [])
+    (hc : Compat a.dims b.dims = true) : add a b = .ok (specEwise (· + ·) a b) := ewise_spec _ a b hwa hwb hna hnb hc
+theorem C04_mul (a b : Tensor S) (hwa : a.WF) (hwb : b.WF) (hna : a.dims ≠ []) (hnb : b.dims ≠ [])
+    (hc : Compat a.dims b.dims = true) : mul a b = .ok (specEwise (· * ·) a b) := ewise_spec _ a b hwa hwb hna hnb hc
+theorem C04_div (a b : Tensor S) (hwa : a.WF) (hwb : b.WF) (hna : a.dims ≠ []) (hnb : b.dims ≠ [])
+    (hc : Compat a.dims b.dims = true) : div a b = .ok (specEwise ScalarOps.div a b) := ewise_spec _ a b hwa hwb hna hnb hc
+
+/-- `a - b` is computed as `a + (b · (−1))`, `axpy(α, x, y)` as `x·α + y`: the same formula on the
+    mapped operand (a point-wise map keeps dimensions and well-formedness). -/
+theorem C04_sub (a b : Tensor S) (hwa : a.WF) (hwb : b.WF) (hna : a.dims ≠ []) (hnb : b.dims ≠ [])
+    (hc : Compat a.dims b.dims = true) : sub a b = .ok (specEwise (· + ·) a (neg b)) :=
+  ewise_spec _ a (neg b) hwa ⟨hwb.1, by simpa [neg, scale, mapT] using hwb.2⟩ hna hnb (by simpa [neg, scale, mapT] using hc)
+theorem C04_axpy (s : S) (a b : Tensor S) (hwa : a.WF) (hwb : b.WF) (hna : a.dims ≠ []) (hnb : b.dims ≠ [])
+    (hc : Compat a.dims b.dims = true) : axpy s a b = .ok (specEwise (· + ·) (scale a s) b) :=
+  ewise_spec _ (scale a s) b ⟨hwa.1, by simpa [scale, mapT] using hwa.2⟩ hwb hna hnb (by simpa [scale, mapT] using hc)
+
+/-- the result's dimensions are the pairwise maximum -/
+theorem C04_result_dims (f : S → S → S) (a b : Tensor S) : (specEwise f a b).dims = bdims a.dims b.dims := rfl
+
 /-! non-vacuity -/
+example : (⟨[2, 1, 2], [1, 2, 3, (4 : Nat)]⟩ : Tensor Nat).WF ∧ (⟨[2, 2], [10, 20, 30, (40 : Nat)]⟩ : Tensor Nat).WF := by
+  simp [Tensor.WF, prod]
 example : Compat [2, 1, 2] [2, 2] = true ∧ bdims [2, 1, 2] [2, 2] = [2, 2, 2] := by decide
 example : Compat [2, 3] [2] = false := by decide
 
@@ -34,3 +67,10 @@ end Corgi
 #print axioms Corgi.C04_dims
 #print axioms Corgi.C04_refuse
 #print axioms Corgi.C04_refuse_ops
+#print axioms Corgi.C04_ewise
+#print axioms Corgi.C04_add
+#print axioms Corgi.C04_mul
+#print axioms Corgi.C04_div
+#print axioms Corgi.C04_sub
+#print axioms Corgi.C04_axpy
+#print axioms Corgi.C04_result_dims
